@@ -457,10 +457,15 @@ pub fn histories(prop: &str, tier: &str, f: &mut dyn FnMut(Vec<Sess>)) {
         v
     };
     for a in &sub {
-        for b in &sub {
-            for c in &sub {
+        for (bi, b) in sub.iter().enumerate() {
+            for (ci, c) in sub.iter().enumerate() {
                 let ns = [a, b, c].iter().filter(|s| is_slow(s)).count();
                 if ns > 1 || (ns == 1 && !thorough && !is_slow(a)) {
+                    continue;
+                }
+                // quick: a history that starts with the timed-out session costs a second of real time;
+                // take every other session of the sub-alphabet after it
+                if ns == 1 && !thorough && (bi % 2 == 1 || ci % 2 == 1) {
                     continue;
                 }
                 f(vec![*a, *b, *c]);
@@ -514,7 +519,9 @@ pub fn worker(prop: &str, tier: &str) {
         // every history of two or more sessions runs twice: queries constructed one by one, and all
         // queries constructed up front (a node prepared before an earlier query ran)
         for prebuild in [false, true] {
-        if prebuild && (h.len() < 2 || (slow > 0 && tier != "thorough" && h.len() > 2)) {
+        // quick: the up-front variant of a history with a timed-out session only when that session comes
+        // first (it is the later sessions that a stale flag or timer can hurt)
+        if prebuild && (h.len() < 2 || (slow > 0 && tier != "thorough" && (h.len() > 2 || !is_slow(&h[0])))) {
             continue;
         }
         let mut result = run_history_forked(w, &h, prop, 300 + 5 * slow, prebuild);
